@@ -807,6 +807,33 @@ class Interp:
             raise exc(val) if val is not None else exc()
         raise exc
 
+    def ex_TryExceptStatNode(self, node, env):
+        """try / except / else of Python-level code in a .pyx: exceptions of the interpreted code are Python exceptions; control
+        signals of the interpreter and its own Unsupported / path-steering exceptions pass through"""
+        try:
+            self.ex(node.body, env)
+        except (ReturnSignal, BreakSignal, ContinueSignal, Unsupported, core.Inconclusive, core.Vacuous, core.PathLimit):
+            raise
+        except Exception as e:
+            for clause in node.except_clauses:
+                pats = clause.pattern
+                match = pats is None
+                if not match:
+                    for pn in (pats if isinstance(pats, (list, tuple)) else [pats]):
+                        cls = self.ev(pn, env)
+                        if isinstance(cls, (type, tuple)) and isinstance(e, cls):
+                            match = True
+                            break
+                if match:
+                    if getattr(clause, 'target', None) is not None:
+                        self.assign(clause.target, e, env, clause)
+                    self.ex(clause.body, env)
+                    return
+            raise
+        else:
+            if getattr(node, 'else_clause', None) is not None:
+                self.ex(node.else_clause, env)
+
     def ex_LetNode(self, node, env):
         v = self.ev(node.temp_expression, env)
         env.setdefault('$let', {})[id(node.lazy_temp)] = v
